@@ -7,7 +7,7 @@ from . import c03, c04
 PROP = "C06"
 
 
-USER_QUERIES = ("core::iter::traits::exact_size::ExactSizeIterator::len", "core::iter::traits::iterator::Iterator::size_hint")
+USER_QUERIES = ("core::iter::traits::exact_size::ExactSizeIterator::len", "core::iter::traits::iterator::Iterator::size_hint", "core::convert::AsRef::as_ref", "core::convert::AsMut::as_mut", "core::borrow::Borrow::borrow", "core::borrow::BorrowMut::borrow_mut")
 
 
 def nobb(e):
@@ -345,7 +345,8 @@ def rule_lenflow(ctx, rep):
                 ok = True
                 why = None
                 # length derives from the input container (argument 2) by `len`
-                if not (L[0] == "call" and L[2] == "len" and _rooted_at_arg(L[3][0], 2)):
+                vL, vS = [], []
+                if not (L[0] == "call" and L[2] == "len" and _rooted_at_arg(L[3][0], 2, vL)):
                     ok, why = False, "the allocation length %s is not `len()` of the input" % symx.show(L)
                 if name in ("from_header_and_slice", "from_header_and_vec"):
                     copies = [t2 for bi, t2 in B.calls() if copy_args(t2) is not None]
@@ -357,8 +358,10 @@ def rule_lenflow(ctx, rep):
                         src = nobb(symx.expr(F, B, copy_args(c)[0]))
                         if n != L:
                             ok, why = False, "the bulk copy moves %s elements but the block was sized for %s" % (symx.show(n), symx.show(L))
-                        if not (src[0] == "call" and src[2] in ("as_ptr", "as_mut_ptr", "into_boxed_slice") and _rooted_at_arg(src[3][0], 2)):  # (`Box::into_raw(v.into_boxed_slice())`: the buffer itself)
+                        if not (src[0] == "call" and src[2] in ("as_ptr", "as_mut_ptr", "into_boxed_slice") and _rooted_at_arg(src[3][0], 2, vS)):  # (`Box::into_raw(v.into_boxed_slice())`: the buffer itself)
                             ok, why = False, "the bulk copy does not read from the start of the input container (%s)" % symx.show(src)
+                        elif ok and (vL or vS) and not (len(vL) == 1 and vL == vS):
+                            ok, why = False, "the length that sizes the block and the pointer the bulk copy reads from come from two separate calls of a caller-implemented view (`as_ref()`): an implementation whose view differs between the calls makes the copy read past a shorter buffer"
                 # (the bound of the iterator constructor's fill loop is judged by R-ITERLOOP's loop model)
                 if ok:
                     rep.ok("R-LENFLOW", ik, symx.show(L), cfg=tag)
@@ -378,7 +381,10 @@ def rule_lenflow(ctx, rep):
                 if len(ctor) == 1 and len(news) == 1:
                     rec = news[0][3][1]
                     items = ctor[0][3][1]
-                    if rec[0] == "call" and rec[2] == "len" and nobb(rec[3][0]) == nobb(items) or (rec[0] == "call" and rec[2] == "len" and _rooted_at_arg(rec[3][0], 2) and _rooted_at_arg(items, 2)):
+                    vr, vi = [], []
+                    if rec[0] == "call" and rec[2] == "len" and nobb(rec[3][0]) == nobb(items) or (rec[0] == "call" and rec[2] == "len" and _rooted_at_arg(rec[3][0], 2, vr) and _rooted_at_arg(items, 2, vi)):
+                        # (a recorded length taken from one call of a caller-implemented view while the fat constructor takes its
+                        # own: if the two disagree, the checked `into_thin` conversion - required below - refuses)
                         ok = True
                     else:
                         why = "the recorded length %s is not `len()` of the items handed to the fat constructor (%s)" % (symx.show(rec), symx.show(items))
@@ -393,11 +399,20 @@ def rule_lenflow(ctx, rep):
     rep.floor("R-LENFLOW", 5, "three fat constructors, two thin ones")
 
 
-def _rooted_at_arg(e, i):
+USER_VIEWS = ("as_ref", "as_mut", "borrow", "borrow_mut")
+
+
+def _rooted_at_arg(e, i, views=None):
+    """... `views` collects the call sites of views a *caller-implemented* trait hands out (`items.as_ref()` for `S: AsRef<[T]>`):
+    unlike `Vec::as_slice` these may answer differently each time, so length and pointer must come from one and the same call."""
     e = nobb(e)
     while True:
         if e[0] == "arg":
             return e[1] == i
+        if views is not None and e[0] == "call" and e[3] and e[2] in USER_VIEWS and e[1] in USER_QUERIES and len(e) > 5:
+            views.append(e[5])
+            e = nobb(e[3][0])
+            continue
         if e[0] == "proj":
             e = e[1]
             continue
